@@ -40,6 +40,17 @@ def find_bad_decl(res, decls, tag='dc_bisect', features=None):
             cur, err = rest, e2
     return cur[0], err
 
+_INT_SUFFIXES = ('usize', 'u128', 'u64', 'u32', 'u16', 'u8', 'isize', 'i128', 'i64', 'i32', 'i16', 'i8')
+def int_lits_by_value(tokens):
+    """`L <integer literal>` tokens replaced by the literal's value: 0x10, 16usize and 1_6 are the same token to rustc's type checker"""
+    def val(m):
+        t = m.group(1).replace('_', '')
+        for suf in _INT_SUFFIXES:
+            if t.endswith(suf) and t[:-len(suf)]: t = t[:-len(suf)]; break
+        try: return 'L %d' % int(t, 0) if not (len(t) > 1 and t[0] == '0' and t[1].isdigit()) else 'L %d' % int(t)
+        except ValueError: return m.group(0)
+    return re.sub(r'L (\d[0-9A-Za-z_]*)', val, tokens)
+
 def parser_tie(res, seed, n, dist):
     """pd dump of /repo's parser vs the extracted Coq model of next_type, on generated field types"""
     rng = random.Random(seed)
@@ -108,7 +119,7 @@ def parser_tie(res, seed, n, dist):
     for name, t, ok in types:
         ip, mp, st = impl_print.get(name), model_print.get(name), src_tokens.get(name)
         if ip is None or st is None: continue
-        if ok and impl.get(name) not in ('PANIC', 'UNSUP', None) and ip != st:
+        if ok and impl.get(name) not in ('PANIC', 'UNSUP', None) and int_lits_by_value(ip) != int_lits_by_value(st):
             # not by itself a violation of C17 (a different spelling may still compile): reported as a broken tie of print_parse_roundtrip;
             # whether a declaration stops compiling is decided by the compile-and-run part below
             nd += 1
